@@ -43,6 +43,8 @@ class CostSpec(cost_spec.CostSpec):
 
     @raw_number_per.setter
     def __raw_number_per(self, value: Optional[NumberExpr]) -> None:
+        if value is not None:
+            value.check_detachable()  # refuse before converting the braces or the components
         if compound_amount := self.raw_compound_amount_comp:  # CompoundAmount
             compound_amount.raw_number_per = value
         elif isinstance(self.raw_cost, UnitCost):
@@ -89,6 +91,8 @@ class CostSpec(cost_spec.CostSpec):
 
     @raw_number_total.setter
     def __raw_number_total(self, value: Optional[NumberExpr]) -> None:
+        if value is not None:
+            value.check_detachable()  # refuse before converting the braces or the components
         if compound_amount := self.raw_compound_amount_comp:  # CompoundAmount
             compound_amount.raw_number_total = value
         elif isinstance(self.raw_cost, TotalCost):
